@@ -90,3 +90,10 @@ with nv_ids_list (ns : wnodes) : list N :=
   match ns with WNil => [] | WCons n r => nv_ids n ++ nv_ids_list r end.
 
 Definition nv_ok (nvstr : N -> str) (id : N) : bool := nv_line_skipped (nvstr id) && nolb (nvstr id).
+
+(* the texts of flat index i of a nested-text subset: str(descriptor) is well formed, the
+   description holds no line break, repr(value) is as the parser needs it *)
+Definition pv (sub : nsubset) (i : N) : pyv := PyV (val_at sub i).
+Definition rtext (repr : pyv -> str) (sub : nsubset) (i : N) : str := repr (pv sub i).
+Definition vtext_ok (repr : pyv -> str) (sub : nsubset) (i : N) : bool :=
+  dstr_ok (ns_dstr sub i) && nolb (ns_descr sub i) && nested_repr_ok (rtext repr sub i).
